@@ -49,18 +49,18 @@ def table(bits):
     P = w['pfx'].upper()
     W = w['W']
     return [
-        (r'\.(overflowing_add|overflowing_sub|wrapping_add|wrapping_sub|wrapping_mul)\(\s*&', r'.\1('),   # num_traits by-ref shims
-        (r'<W as From<bool>>::from\((\w+)\)', r'(\1 as %s)' % W),
-        (r'\bSelf::PRIME\b', P + '_PRIME'),
-        (r'\bW::ZERO\b', '0' + W),
-        (r'\bW::ONE\b', '1' + W),
+        (r'\.(overflowing_add|overflowing_sub|wrapping_add|wrapping_sub|wrapping_mul)\(\s*&', r'.\1(', '*'),   # num_traits by-ref shims
+        (r'<W as From<bool>>::from\(', r'bool_as_%s(' % W, '*'),
+        (r'\bSelf::PRIME\b', P + '_PRIME', '*'),
+        (r'\bW::ZERO\b', '0' + W, '*'),
+        (r'\bW::ONE\b', '1' + W, '*'),
     ]
 
 
 def tsel(bits, *which, extra=()):
     t = table(bits)
     names = {'ovf': 0, 'bool': 1, 'prime': 2, 'zero': 3, 'one': 4}
-    return [t[names[x]] for x in which] + list(extra)
+    return list(extra) + t
 
 
 def wty(bits):
